@@ -60,6 +60,7 @@ type T struct {
 	k    uint64 // const value; extract hi<<8|lo; ext amount
 	name string // var / UF name
 	id   int
+	ub   uint64 // an upper bound of the unsigned value (bit-vectors)
 }
 
 func (t *T) IsConst() bool { return t.op == OConst }
@@ -102,8 +103,102 @@ func (b *TB) mk(t *T) *T {
 	}
 	b.next++
 	t.id = b.next
+	t.ub = upperBound(t)
 	b.tab[k] = t
 	return t
+}
+
+// upperBound: a cheap sound upper bound of the unsigned value of a bit-vector term.
+func upperBound(t *T) uint64 {
+	if t.w == 0 {
+		return 1
+	}
+	m := mask(t.w)
+	switch t.op {
+	case OConst:
+		return t.k
+	case OZExt:
+		return t.args[0].ub
+	case OExtract:
+		hi, lo := int(t.k>>8), int(t.k&0xff)
+		if lo == 0 && t.args[0].ub <= mask(hi+1) {
+			return t.args[0].ub
+		}
+		return mask(hi - lo + 1)
+	case OBAnd:
+		a, c := t.args[0].ub, t.args[1].ub
+		if c < a {
+			a = c
+		}
+		return a
+	case OBOr, OBXor:
+		a, c := t.args[0].ub, t.args[1].ub
+		if c > a {
+			a = c
+		}
+		// smallest all-ones mask covering both
+		r := uint64(0)
+		for r < a {
+			r = r<<1 | 1
+		}
+		if r > m {
+			r = m
+		}
+		return r
+	case OLShr:
+		if t.args[1].IsConst() {
+			if t.args[1].k >= uint64(t.w) {
+				return 0
+			}
+			return t.args[0].ub >> t.args[1].k
+		}
+		return t.args[0].ub
+	case OURem:
+		if t.args[1].IsConst() && t.args[1].k > 0 {
+			r := t.args[1].k - 1
+			if t.args[0].ub < r {
+				r = t.args[0].ub
+			}
+			return r
+		}
+		return t.args[0].ub
+	case OUDiv:
+		if t.args[1].IsConst() && t.args[1].k > 0 {
+			return t.args[0].ub / t.args[1].k
+		}
+		return t.args[0].ub
+	case OIte:
+		a, c := t.args[1].ub, t.args[2].ub
+		if c > a {
+			a = c
+		}
+		return a
+	case OAdd:
+		a, c := t.args[0].ub, t.args[1].ub
+		if a+c >= a && a+c <= m {
+			return a + c
+		}
+	case OMul:
+		a, c := t.args[0].ub, t.args[1].ub
+		if a != 0 && c != 0 {
+			hi, lo := bits.Mul64(a, c)
+			if hi == 0 && lo <= m {
+				return lo
+			}
+		} else {
+			return 0
+		}
+	case OShl:
+		if t.args[1].IsConst() && t.args[1].k < 64 {
+			a := t.args[0].ub
+			if bits.Len64(a)+int(t.args[1].k) <= t.w {
+				return a << t.args[1].k
+			}
+		}
+	case OConcat:
+		return t.args[0].ub<<uint(t.args[1].w) | mask(t.args[1].w)
+	}
+	return m
 }
 
 func mask(w int) uint64 {
@@ -438,6 +533,39 @@ func (b *TB) cmp(op Op, x, y *T) *T {
 	// unsigned: x < 0 false ; 0 <= x true
 	if op == OULt && y.IsConst() && y.k == 0 {
 		return b.fls
+	}
+	if y.IsConst() {
+		if op == OULt && x.ub < y.k {
+			return b.tru
+		}
+		if op == OULe && x.ub <= y.k {
+			return b.tru
+		}
+		// signed comparisons when both are known non-negative
+		if x.w < 64 || x.ub < 1<<63 {
+			if x.ub < uint64(1)<<uint(x.w-1) && sext64(y.k, y.w) >= 0 {
+				if op == OSLt && x.ub < y.k {
+					return b.tru
+				}
+				if op == OSLe && x.ub <= y.k {
+					return b.tru
+				}
+			}
+		}
+	}
+	if x.IsConst() {
+		if op == OULt && y.ub <= x.k {
+			return b.fls
+		}
+		if op == OULe && y.ub < x.k {
+			return b.fls
+		}
+		if (op == OSLe || op == OSLt) && sext64(x.k, x.w) < 0 && y.ub < uint64(1)<<uint(y.w-1) {
+			return b.tru
+		}
+		if op == OSLe && sext64(x.k, x.w) == 0 && y.ub < uint64(1)<<uint(y.w-1) {
+			return b.tru
+		}
 	}
 	if op == OULe && x.IsConst() && x.k == 0 {
 		return b.tru
